@@ -2,6 +2,7 @@ package rules
 
 import (
 	"fmt"
+	"verif/tools/model"
 
 	"golang.org/x/tools/go/ssa"
 
@@ -26,6 +27,11 @@ func runC06(c *Ctx) {
 	R.Rule("C06.R4", "the tokenizer runs in its default configuration: the only methods invoked on the value returned by html.NewTokenizer are Next, Token, Err and Raw (AllowCDATA, SetMaxBuf, NextIsNotRawText … change which input bytes are delivered as text, so that the text of the output is no longer the text of the input)")
 	R.Rule("C06.R3", "nothing is written outside the token-type arms (between Tokenizer.Next and the switch, or after the loop)")
 	R.Assume(TrustGo, TrustTokenizer, TrustTokenString, "equality of the text an HTML tokenizer reads from input and output (decode/escape round trip, CR/LF/NUL normalisation, invalid UTF-8) is a property of x/net/html and is NOT decided")
+	R.Rule("C06.R10", "text is skipped only for the elements this policy names (= C08.R6, cited): the map installed in a policy's skip-content field is freshly made by the storing function — a default set shared by reference lets AllowElementsContent / SkipElementsContent on one policy change which text another policy drops")
+	if F10 := model.FindFields(c.P); F10 != nil {
+		skipField10 := F10.Get("skipSet")
+		freshTables(c, "C06.R10", func(f string) bool { return f == skipField10 }, 1)
+	}
 	R.Rule("C06.R9", "the added space is a space (= C20.R3 / C01.R1, cited): every destination write of sanitize is Token.String(), the constant \" \" or raw data — a separator taken from a field or computed is not \"exactly one added space per removed tag\" for every way a policy can be built")
 	singleSerialiser(c, "C06.R9", "what is written for a removed tag (or for text) is no longer the escaped token or the single space the property speaks of")
 	R.Rule("C06.R8", "no token the tokenizer can deliver aborts the run: each of the six html.TokenType values that Token() can carry once Next() did not report ErrorToken (Text, StartTag, EndTag, SelfClosingTag, Comment, Doctype) has an arm of its own in the dispatcher of sanitize, so that the `unknown token` return of the default arm — which discards everything written so far in the string entry points and the rest of the text in the streaming one — is never taken for real input")
